@@ -32,3 +32,4 @@ def run(run):
         sr.loop_handles_each_envelope_once(run, lc, rule="O2.4")
         sr.one_consumer(run, f, lc, rule="O2.4")
         sr.stop_marker(run, f, sp, rule="O2.5")
+        sr.stop_marker_ends_loop(run, lc, rule="O2.5")
